@@ -346,6 +346,35 @@ int main(int argc, char** argv)
         });
     };
     prop.run = runCase;
+    // coverage-guided mode: histories of the shapes this check's reference model is meant for - a frame holds unsegmented messages and / or
+    // ends with exactly one segment; what follows a segment is not a message (zeros, fewer than 16 bytes, or bytes whose payload-type
+    // byte is 0); raw buffers are short (< 8 bytes) or take the TECMP route; no procedural long run
+    prop.normalize = [](Case& c) {
+        c.procFrames = 0;
+        c.procSeed = 0;
+        c.procEndpoints = 4;
+        boundHistory(c.hist, 300, 600000);
+        for (auto& f : c.hist.frames)
+        {
+            if (f.kind == 1)
+            {
+                if (f.raw.size() >= 8)
+                    f.raw[0] = 0;  // TECMP route: no effect on CMP endpoints
+                continue;
+            }
+            if (f.version == 0)
+                f.version = 1;  // version byte 0 would route the frame to the TECMP decoder
+            for (size_t k = 0; k < f.msgs.size(); ++k)
+                if (f.msgs[k].seg != 0)
+                {
+                    f.msgs.resize(k + 1);  // nothing behind a segment but non-message bytes
+                    if (f.trailing.size() >= 14)
+                        f.trailing[13] = 0;
+                    break;
+                }
+        }
+    };
+    prop.smartMutate = [](Case& c, MutRng& rng) { smartMutateHistory(c.hist, rng); };
     prop.enumerate = enumerate;
     prop.enumerationIsExhaustive = true;
     prop.enumerationNote = "all sequences up to length 3 (quick) / 4 (thorough) over a 22-symbol frame alphabet on two endpoints, two "
